@@ -28,7 +28,7 @@ ASSUMPTIONS = [
 ]
 BUDGET = {"quick": {"examples": 800, "wall": 420, "min_evaluations": 200}, "thorough": {"examples": 10000, "wall": 2400, "min_evaluations": 1500}}
 MANDATORY = {
-    t: ["nontrivial", "tmc:on", "tmc:off", "target:other", "process:CC", "xs", "duplicate-point", "repeated-q2", "rerun", "x-is-xi", "x-on-node", "two-heavyness", "key-order:Q2-first", "caller-overwrites-returned-results", "ulp-neighbour-of-another-point"]
+    t: ["nontrivial", "tmc:on", "tmc:off", "target:other", "process:CC", "xs", "duplicate-point", "repeated-q2", "rerun", "x-is-xi", "x-on-node", "two-heavyness", "key-order:Q2-first", "caller-overwrites-returned-results", "ulp-neighbour-of-another-point", "same-numbers-in-exchanged-roles"]
     for t in ("quick", "thorough")
 }
 SHRINK = {"quick": False, "thorough": True}
@@ -69,7 +69,7 @@ def cases(draw, tier="quick"):
     npool = draw(st.integers(2, 5))
     for i in range(npool):
         q2 = draw(st.sampled_from(q2s))
-        kind = draw(st.sampled_from(["interior", "node", "xi", "q2", "ulp"]))
+        kind = draw(st.sampled_from(["interior", "node", "xi", "q2", "ulp", "swap"]))
         if kind == "ulp" and pool:
             # the float next to an earlier point (in x, in Q2 or in both): a different point, however close
             p0 = pool[draw(st.integers(0, len(pool) - 1))]
@@ -84,12 +84,22 @@ def cases(draw, tier="quick"):
             x = 2 * x0 / (1 + math.sqrt(1 + 4 * x0 * x0 * mu))
         elif kind == "q2" and 0.5 in q2s:
             x = 0.5
+        elif kind == "swap" and pool:
+            # the same numbers in exchanged roles: (x, y) -> (y, x) at the same Q2, or (x, Q2) -> (Q2, x) where both are legal
+            p0 = pool[draw(st.integers(0, len(pool) - 1))]
+            if p0["Q2"] <= 1.0 and p0["x"] >= 0.3 and draw(st.booleans()):
+                x, q2, yswap = p0["Q2"], p0["x"], None
+            else:
+                x, q2, yswap = p0["y"], p0["Q2"], p0["x"]
         else:
             kind = "interior"
             x = draw(cards.x_in_grid(grid, classes=["interior"]))[0]
         # TMC needs xi(x) >= xmin: stay well inside the grid
         x = max(x, g[0] * 3)
-        pool.append({"x": x, "Q2": q2, "y": draw(st.sampled_from([0.3, 0.7, 1.0])), "kind": kind})
+        y = draw(st.sampled_from([0.3, 0.7, 1.0]))
+        if kind == "swap" and yswap is not None and x == p0["y"]:
+            y = yswap
+        pool.append({"x": x, "Q2": q2, "y": y, "kind": kind})
     hv = draw(st.lists(st.sampled_from(["total", "light", "charm"]), min_size=1, max_size=2, unique=True))
     sfk = ["F2", "FL", "F3"]
     # every cross-section kind of the process (points share their y values: 0.3, 0.7, 1.0)
@@ -100,6 +110,7 @@ def cases(draw, tier="quick"):
     for n in chosen:
         idx = draw(st.lists(st.integers(0, npool - 1), min_size=1, max_size=4))
         plan.append([n, idx])
+    configs.split_orders(draw, th)
     return {
         "theory": th,
         "obs": ob,
@@ -177,6 +188,8 @@ def check_case(case):
             v.label("x-on-node")
         if pool[i]["kind"] == "ulp":
             v.label("ulp-neighbour-of-another-point")
+        if pool[i]["kind"] == "swap":
+            v.label("same-numbers-in-exchanged-roles")
     if case["calls"] > 1:
         v.label("rerun")
     with warnings.catch_warnings():
